@@ -158,27 +158,31 @@ def rule_regexcfg(E, R):
                     all(m.startswith("<") or m in ("lex_raw_string_as_str", "skip_space", "expect", "as_ref", "as_str", "borrow", "deref") for m in ms)
             R.check(bound, rule, fn, "a raw-string pattern reaches the engine verbatim", where=h["span"])
         else:
-            # the only rewrite: backslash dropped before a quote outside a class
+            # the only rewrite: backslash dropped before a quote outside a class. Read from the path condition of the site
+            # that re-emits the backslash: `<inside-a-class flag> || <next char> != '"'` (the scanning loop may live in a
+            # private helper of the same file)
             ok = False
-            # the scanning loop may live in a private helper of the same file
             Sl = sem.Sem(E, h)
-            Sl.sites()
-            bodies = [h] + [E.hir(p_) for p_, _ in Sl.inlined if E.hir(p_) is not None]
-            for hb_ in bodies:
-                for i in exprs(hb_["body"], "If"):
-                    c = strip(i["cond"])
-                    flags = set()
-                    for st_ in exprs(hb_["body"], "SLet"):
-                        if st_["pat"].get("k") == "PBinding" and norm(st_["pat"].get("ty", "")) == "bool" and "init" in st_ and is_lit(st_["init"], False):
-                            nm_ = st_["pat"]["name"]
-                            sets = [a_ for a_ in exprs(hb_["body"], "Assign") if local_name(a_["l"]) == nm_]
-                            if sets:
-                                flags.add(nm_)
-                    if c.get("k") == "Binary" and c["op"] == "Or" and local_name(c["l"]) in flags:
-                        r = strip(c["r"])
-                        if r.get("k") == "Binary" and r["op"] == "Ne" and lit_value(r["r"]) == '"':
-                            pushes = [lit_value(x["args"][0]) for x in exprs(i["then"], "MethodCall") if x["m"] == "push"]
-                            ok = ok or pushes == ["\\"]
+            for x in Sl.sites():
+                n_ = x.node
+                if not (n_.get("k") == "MethodCall" and n_["m"] == "push" and n_.get("args") and lit_value(n_["args"][0]) == "\\"):
+                    continue
+                lits_, ors_ = sem.literals(x.pc)
+                for disj in ors_:
+                    flag = quote = False
+                    for g_, pol_ in disj:
+                        ls_, os_ = sem.literals(((g_, pol_),))
+                        if os_ or len(ls_) != 1:
+                            continue
+                        a_, ap_ = ls_[0]
+                        if a_.kind == "local" and ap_:
+                            b_ = Sl.lookup(sem.peel(a_.node), a_.frame)
+                            flag = flag or (b_ is not None and b_.mutable and b_.assigns > 0 and norm((b_.pat or {}).get("ty", "")) == "bool")
+                        if a_.kind == "cmp" and ((a_.op == "Ne" and ap_) or (a_.op == "Eq" and not ap_)) and \
+                                '"' in (lit_value(sem.peel(a_.l.node)), lit_value(sem.peel(a_.r.node))):
+                            quote = True
+                    if flag and quote and len(disj) == 2:
+                        ok = True
             R.check(ok, rule, fn, "the backslash of an escape is kept unless it escapes a quote outside a character class", where=h["span"])
 
 
